@@ -87,7 +87,7 @@ def run(check):
                 idx += 1
                 g2 = dict(g, shape=g["shape"] + "/cancel@%d" % k, cancel=("seq", k))
                 items.append((c2, s2, g2))
-        for i in range(check.pick(21, 63)):
+        for i in range(check.pick(3 * len(cancelfam.NEVER_ENDING), 6 * len(cancelfam.NEVER_ENDING))):
             rng = random.Random(derive_seed(check.seed, "c05-never", i))
             prog, scripts, name = cancelfam.NEVER_ENDING[i % len(cancelfam.NEVER_ENDING)](rng)
             v = (i // len(cancelfam.NEVER_ENDING)) % 3
@@ -96,6 +96,8 @@ def run(check):
                 scripts, name = cancelfam.slow_close(scripts, only_never_ending=v == 2), name + "/slow-close" + ("-of-never-ending" if v == 2 else "")
             inp = cancelfam.base_input(rng)
             evs, _sem = cancelfam.certain_events(prog, scripts, inp)
+            if len(evs) > check.pick(10, 30):
+                evs = sorted(random.Random(derive_seed(check.seed, name, i)).sample(evs, check.pick(10, 30)))
             for (kind, src, nth) in evs:
                 g = {"program": prog, "scripts": scripts, "input": inp, "shape": "%s/cancel@%s:%s#%d" % (name, kind, src, nth), "cancel": (kind, src, nth)}
                 c2, s2 = runfam.build_case("c05-%05d" % idx, g, triggers=[{"kind": kind, "src": src, "nth": nth, "action": "cancel:0"}])
